@@ -260,6 +260,11 @@ def which_index(b, P, op):
     p = op_place(op)
     if p is not None:
         d = b.single_def(p["l"])
+        if d and d.kind == "assign" and d.node["rv"]["k"] == "binop" and d.node["rv"]["op"] in ("Sub", "SubUnchecked") \
+                and const_int(b, d.node["rv"]["b"]) == 1:
+            ln = def_call(b, d.node["rv"]["a"])
+            if ln and callee_name(ln[1]).split("::")[-1] == "len" and P.is_verified_layout(ln[1]["args"][0], (fld("steps"),)):
+                return "last"
         if d and d.kind == "assign" and d.node["rv"]["k"] == "use":
             q = op_place(d.node["rv"]["op"])
             if q is not None and proj_path(q) == (F0,):
